@@ -818,6 +818,16 @@ func containmentCase(rt *rapid.T, sc *scenario) {
 			fail("listener-wedged-after-garbage", "fresh connection to the %s: %s", x.name, e)
 		}
 	}
+	// "a failure affects only that connection (error reply or close)": a complete request head on which the decoder
+	// fails (or which is valid) is never met with silence: within 3 s the proxy answers (its own error reply, or the
+	// upstream's answer) or closes the connection.
+	if sc.Proto == "Http1" {
+		head := rapid.SampledFrom(h1CompleteHeads).Draw(rt, "completeHead")
+		ev.Class(partContain, "h1-complete-head-fate")
+		if fate := h1HeadFate(csA.Addr, head); fate == "silence" {
+			fail("malformed-request-met-with-silence", "the complete request head %q was neither answered nor was its connection closed within 3 s", head)
+		}
+	}
 	// and the old probe connections still work
 	if e := pA.exchange("a"); e != "" {
 		fail("probe-disturbed", "probe connection of the hammered listener after the garbage ended: %s", e)
@@ -851,6 +861,43 @@ func containmentCase(rt *rapid.T, sc *scenario) {
 		}
 		fail(sig, "the process allocated %d MiB during the case while all garbage together was %d bytes", delta>>20, sent)
 	}
+}
+
+// Complete request heads (terminated, no body announced) for which the HTTP/1 decoder has a verdict: four it fails on
+// and a valid one. (A head like "...\r\nNoColonHere\r\n\r\n" is not in the list: the decoder keeps asking for more data
+// there, which the property allows; heads with an unusable method or an empty header name are taken for valid and
+// forwarded, the upstream's refusal comes back as 502 - contained to that request.)
+var h1CompleteHeads = []string{
+	"GARBAGE\r\n\r\n",
+	"GET\r\n\r\n",
+	"GET / HTTP/1.1\r\nContent-Length: abc\r\n\r\n",
+	"POST / HTTP/1.1\r\nHost: a\r\nContent-Length: -5\r\n\r\n",
+	"GET /c08/plain HTTP/1.1\r\nHost: c08.test\r\n\r\n",
+}
+
+// h1HeadFate: "answered" | "closed" | "silence" | "dial-failed"
+func h1HeadFate(addr, head string) string {
+	c, err := net.DialTimeout("tcp", addr, 3*time.Second)
+	if err != nil {
+		return "dial-failed"
+	}
+	defer mesh.Abort(c)
+	_ = c.SetDeadline(time.Now().Add(3 * time.Second))
+	if _, err := c.Write([]byte(head)); err != nil {
+		return "closed"
+	}
+	buf := make([]byte, 512)
+	n, err := c.Read(buf)
+	switch {
+	case n > 0:
+		return "answered"
+	case err != nil:
+		if ne, ok := err.(net.Error); ok && ne.Timeout() {
+			return "silence"
+		}
+		return "closed"
+	}
+	return "silence"
 }
 
 // sendGarbage plays one garbage connection and reports how the proxy reacted.
